@@ -32,12 +32,13 @@ type CtlRec struct {
 }
 
 type Ledger struct {
-	Recs      []*FdRec // every descriptor creation of this execution, in order
-	BadCloses []string // closes of descriptors netpoll does not own / that are not open
-	Ctl       []CtlRec
-	CloseLog  []string
-	Dev       Deviations
-	SysLog    []string // when Trace: rendered syscalls
+	Recs         []*FdRec // every descriptor creation of this execution, in order
+	BadCloses    []string // closes of descriptors netpoll does not own / that are not open
+	Ctl          []CtlRec
+	CloseLog     []string
+	Dev          Deviations
+	SysLog       []string // when Trace: rendered syscalls
+	EventfdReads int      // read(2) calls netpoll issued on eventfd descriptors (poller wake-ups served)
 }
 
 // Deviations enabled by the scenario (all off = the kernel's real answers only).
@@ -222,6 +223,11 @@ func Read(fd int, p []byte) (int, error) {
 	ptf("read(%d)", fd)
 	if !vsched.Active() {
 		return syscall.Read(fd, p)
+	}
+	if led != nil {
+		if r := led.find(fd); r != nil && r.Kind == "eventfd" {
+			led.EventfdReads++
+		}
 	}
 	return rawRead(fd, p)
 }
